@@ -51,6 +51,10 @@ class C18(PropBase):
         dt = max(ref.stmin_ns(pb.get('stmin', 0)) or 0, ref.stmin_ns(pa.get('stmin', 0)) or 0, 1000000) + 1
         garbage = rng.random() < 0.3
         fid, ext, _ = gen.rx_match_frame(b, b'')
+        # hypothesis of the property: listener and receiver see each frame within the protocol timeouts.
+        # The listener may skip rounds (batching), but never for longer than half its N_Cr timeout.
+        tcf_ns = min(pl.get('rx_consecutive_frame_timeout', 1000), pb.get('rx_consecutive_frame_timeout', 1000)) * 1000000
+        since2 = 0
         for k in range(2 * total + 8):
             ops.append({'op': 'deliver', 'i': 0, 'j': 1, 'n': rng.choice([1, 2, 100]), 'tap': 2})
             if garbage and rng.random() < 0.3:
@@ -58,11 +62,13 @@ class C18(PropBase):
                 for tgt in (1, 2):
                     ops.append({'op': 'frame', 'i': tgt, 'id': fid, 'ext': ext, 'data': data})
             ops.append({'op': 'process', 'i': 1})
-            if rng.random() < 0.7:
+            if rng.random() < 0.7 or 2 * (since2 + 2 * dt) >= tcf_ns:
                 ops.append({'op': 'process', 'i': 2})
+                since2 = 0
             ops.append({'op': 'deliver', 'i': 1, 'j': 0, 'n': 100000})
             ops.append({'op': 'process', 'i': 0})
             ops.append({'op': 'tick', 'dt': dt})
+            since2 += dt
         for _ in range(2 * total + 30):
             ops.append({'op': 'process', 'i': 2})
             ops.append({'op': 'process', 'i': 1})
@@ -77,8 +83,11 @@ class C18(PropBase):
     def judge(self, sc, lines_in, impl_out):
         out = []
         d1, d2, tx2 = [], [], []
+        timed_out = False
         for r in trace.records(lines_in, impl_out):
             for e in r.events:
+                if e['k'] == 'err' and e['name'] == 'ConsecutiveFrameTimeoutError' and r.layer in (1, 2):
+                    timed_out = True    # outside the hypothesis (frames not processed within N_Cr by both observers)
                 if e['k'] == 'deliver' and r.layer == 1:
                     d1.append(e['data'])
                 elif e['k'] == 'deliver' and r.layer == 2:
@@ -95,6 +104,8 @@ class C18(PropBase):
         if tx2 != exp:
             out.append(('silent', 'listener emitted %s; only the segmentation of its own send() is allowed (%s)' % (
                 [x.hex() for x in tx2][:3], [x.hex() for x in exp])))
+        if timed_out:
+            return out[:3]
         if d1 != d2 and not sc['meta']['garbage']:
             out.append(('same_rx', 'normal receiver delivered %s, listener delivered %s' % ([len(x) for x in d1], [len(x) for x in d2])))
         if sc['meta']['garbage'] and d1 != d2:
